@@ -116,6 +116,37 @@ theorem C16_gen_pdeathsig_after_credentials :
       | .error _ => false) = true := by
   decide +kernel
 
+open GoSandbox.Model.ForkSkeleton GoSandbox.Model.ForkOpts in
+/-- **the child can see its launcher die while it waits for it** (every option set): the first thing the
+launched child does is to close its copy of the launcher's end of the synchronisation socket, so every later
+blocking read of that socket (id maps, synchronisation) returns end-of-file once the launcher is gone — the
+child's own copy would keep the socket open for ever. Stated on the skeleton, which C04 ties to the regenerated
+child; `C16_gen_child_closes_parent_end` evaluates the regenerated child directly. -/
+theorem C16_child_closes_parent_end_first (o : Opts) :
+    (skeleton o)[1]? = some Step.close_p0 ∧
+    ((skeleton o)[0]? = some Step.clone ∨ (skeleton o)[0]? = some Step.clone3) := by
+  unfold skeleton
+  cases h : o.cgroupFd <;> simp [opt]
+
+open GoSandbox.Model.ForkSkeleton GoSandbox.Model.ForkOpts in
+/-- the regenerated child on a family of option sets with a synchronisation and/or a user namespace (the two
+blocking reads): `close(p[0])` comes before the first read of the socket, exactly once (kernel-evaluated) -/
+theorem C16_gen_child_closes_parent_end :
+    ([({ syncFunc := true } : Opts), { ptrace := true, seccomp := true, syncFunc := true }, { newUser := true },
+      { newUser := true, syncFunc := true, ucas := true }, { ptrace := true, seccomp := true, syncFunc := true, cred := true, newUser := true },
+      { syncFunc := true, execFile := 9 }, { ptrace := true }].all fun o =>
+      match genLabels o with
+      | .ok l =>
+        (match l.findIdx? (· == Step.close_p0) with
+         | some c =>
+           l.count Step.close_p0 == 1 &&
+           (match l.findIdx? (fun s => s == Step.read_idmap || s == Step.read_sync) with
+            | some r => c < r
+            | none => !(o.syncFunc || o.newUser))
+         | none => false)
+      | .error _ => false) = true := by
+  decide +kernel
+
 /-! non-vacuity: the crash rule is exercised from states with messages in flight -/
 example : (reachable ⟨true, .execve false .runs⟩).any (fun s => !s.h2c.isEmpty && s.c == .started) = true := by decide +kernel
 
